@@ -1,9 +1,214 @@
 package main
 
 import (
-	_ "golang.org/x/tools/go/packages"
-	_ "golang.org/x/tools/go/ssa"
-	_ "golang.org/x/tools/go/ssa/ssautil"
+	"encoding/json"
+	"flag"
+	"fmt"
+	"os"
+	"path/filepath"
+	"sort"
+	"strconv"
+	"strings"
+	"time"
+
+	"golang.org/x/tools/go/ssa"
 )
 
-func main() {}
+type options struct {
+	repo, verif, prop, tier, unit, dump string
+	list, updateRegistry, verbose     bool
+	timeout                           time.Duration
+	seed                              int
+	workers                           int
+}
+
+func main() {
+	var o options
+	flag.StringVar(&o.repo, "repo", "/repo", "repository under verification")
+	flag.StringVar(&o.verif, "verif", "/verif", "verification directory")
+	flag.StringVar(&o.prop, "prop", "", "property id (e.g. C17); empty: all units")
+	flag.StringVar(&o.tier, "tier", "", "quick | thorough (default from VERIF_TIER or quick)")
+	flag.StringVar(&o.unit, "unit", "", "only units whose name contains this string")
+	flag.StringVar(&o.dump, "dump", "", "keep SMT files in this directory")
+	flag.BoolVar(&o.list, "list", false, "list units and obligations without solving")
+	flag.BoolVar(&o.updateRegistry, "update-registry", false, "rewrite contracts/registry.json for the property from this run")
+	flag.BoolVar(&o.verbose, "v", false, "verbose")
+	flag.IntVar(&o.workers, "workers", 6, "concurrent obligations")
+	flag.Parse()
+	if o.tier == "" {
+		o.tier = os.Getenv("VERIF_TIER")
+	}
+	if o.tier != "thorough" {
+		o.tier = "quick"
+	}
+	if s := os.Getenv("VERIF_SEED"); s != "" {
+		o.seed, _ = strconv.Atoi(s)
+	}
+	o.timeout = 10 * time.Second
+	if o.tier == "thorough" {
+		o.timeout = 60 * time.Second
+	}
+	os.Exit(run(&o))
+}
+
+type propConfig struct {
+	Packages []string `json:"packages"`
+}
+
+func run(o *options) int {
+	start := time.Now()
+	undecided := func(f string, a ...any) int {
+		fmt.Printf("UNDECIDED property=%s %s\n", o.prop, fmt.Sprintf(f, a...))
+		return 2
+	}
+	// which packages to load
+	cfgAll := map[string]propConfig{}
+	if data, err := os.ReadFile(filepath.Join(o.verif, "contracts", "packages.json")); err == nil {
+		_ = json.Unmarshal(data, &cfgAll)
+	}
+	patterns := []string{"./..."}
+	if pc, ok := cfgAll[o.prop]; ok && len(pc.Packages) > 0 {
+		patterns = pc.Packages
+	}
+	p, err := loadProgram(o.repo, patterns)
+	if err != nil {
+		return undecided("cannot load %s: %v", o.repo, err)
+	}
+	cs, err := loadContracts(o.repo, p.Module, filepath.Join(o.verif, "contracts", "ext"))
+	if err != nil {
+		return undecided("cannot read contracts: %v", err)
+	}
+	p.Cs = cs
+	loadSecs := time.Since(start).Seconds()
+
+	// select units
+	var units []*UnitResult
+	wants := func(props []string) bool {
+		if o.prop == "" {
+			return true
+		}
+		for _, q := range props {
+			if q == o.prop {
+				return true
+			}
+		}
+		return false
+	}
+	var keys []string
+	for k := range cs.Funcs {
+		keys = append(keys, k)
+	}
+	sort.Strings(keys)
+	var missing []string
+	for _, k := range keys {
+		fc := cs.Funcs[k]
+		if !wants(fc.Props) {
+			continue
+		}
+		fns := p.fnByKey[k]
+		if len(fns) == 0 {
+			if o.prop != "" {
+				missing = append(missing, k)
+			}
+			continue
+		}
+		for _, fn := range fns {
+			if isGenericTemplate(fn) {
+				continue
+			}
+			if o.unit != "" && !strings.Contains(displayName(fn), o.unit) {
+				continue
+			}
+			u := verifyFunc(p, fn, fc)
+			units = append(units, u)
+		}
+	}
+	for _, lm := range cs.Lemmas {
+		if !wants(lm.Props) {
+			continue
+		}
+		if o.unit != "" && !strings.Contains(lm.Name, o.unit) {
+			continue
+		}
+		units = append(units, verifyLemma(p, lm))
+	}
+	// pure functions used by these units are verified stand-alone too (safe.*, frame.*, own ensures)
+	if o.unit == "" {
+		done := map[*ssa.Function]bool{}
+		for _, u := range units {
+			if u.fn != nil {
+				done[u.fn] = true
+			}
+		}
+		for i := 0; i < len(units); i++ {
+			u := units[i]
+			if u.VC == nil {
+				continue
+			}
+			var fns []*ssa.Function
+			for fn := range u.VC.pureFns {
+				fns = append(fns, fn)
+			}
+			sort.Slice(fns, func(a, b int) bool { return fns[a].String() < fns[b].String() })
+			for _, fn := range fns {
+				if done[fn] {
+					continue
+				}
+				done[fn] = true
+				fc := p.contractFor(fn)
+				if fc == nil {
+					continue
+				}
+				nu := verifyFunc(p, fn, fc)
+				if o.prop != "" {
+					nu.Props = append(append([]string{}, nu.Props...), o.prop)
+				}
+				units = append(units, nu)
+			}
+		}
+	}
+	if len(missing) > 0 {
+		return undecided("contracts for functions that no longer exist: %s", strings.Join(missing, ", "))
+	}
+	if len(units) == 0 {
+		return undecided("no verification units for this property")
+	}
+	genSecs := time.Since(start).Seconds() - loadSecs
+
+	if o.list {
+		for _, u := range units {
+			fmt.Printf("unit %s", u.Name)
+			if u.Err != "" {
+				fmt.Printf("  ERROR %s", u.Err)
+			}
+			fmt.Println()
+			if u.VC != nil {
+				for _, ob := range u.VC.obls {
+					fmt.Printf("    %s\n", ob.Name)
+				}
+			}
+		}
+		return 0
+	}
+
+	dir := o.dump
+	if dir == "" {
+		dir, err = os.MkdirTemp("", "govc-")
+		if err != nil {
+			return undecided("tempdir: %v", err)
+		}
+		defer os.RemoveAll(dir)
+	} else {
+		os.MkdirAll(dir, 0o755)
+	}
+	solveStart := time.Now()
+	dischargeAll(units, dir, o.timeout, o.seed, o.workers)
+	solveSecs := time.Since(solveStart).Seconds()
+
+	return report(o, p, units, loadSecs, genSecs, solveSecs, time.Since(start).Seconds())
+}
+
+func isGenericTemplate(fn *ssa.Function) bool {
+	r := rootOf(fn)
+	return r.TypeParams() != nil && r.TypeParams().Len() > 0 && len(r.TypeArgs()) == 0
+}
